@@ -64,10 +64,14 @@ impl OpenOptions {
     /// Trying to open an existing database with the incorrect page size will result in a panic.
     ///
     /// # Panics
-    /// Will panic if you try to set the pagesize < 1024 bytes.
+    /// Will panic if you try to set the pagesize < 1024 bytes, or to a value that is not a multiple of 8 bytes.
     pub fn pagesize(mut self, pagesize: u64) -> Self {
         if pagesize < 1024 {
             panic!("Pagesize must be 1024 bytes minimum");
+        }
+        // Pages are read in place as structs with 8 byte alignment
+        if pagesize % 8 != 0 {
+            panic!("Pagesize must be a multiple of 8 bytes");
         }
         self.pagesize = pagesize;
         self
